@@ -190,3 +190,52 @@ def run(facts, rep, tier):
         ok = any(callee_pat in n for n in names + defs)
         rep.ob("C08.K", "CustomOperation::%s delegates" % meth, ok,
                "CustomOperation::%s calls %s" % (meth, [n for n in names]), b.loc())
+
+
+# ============================================================================ C08.G
+NAMING_SINKS = ("graphs::Graph::set_name", "graphs::Context::set_graph_name")
+
+
+def glue_by_identity(facts, rep):
+    """the reported name is only ever used to *name* the glued graph; instantiations are found and cached by identity"""
+    rep.rule("C08.G", "in run_instantiation_pass the string returned by Instantiation::get_name flows only into set_name: it is "
+                      "never used to look a graph up or to decide whether an instantiation was already glued (two instantiations "
+                      "with equal names would be merged silently); the glued cache is keyed by Instantiation")
+    from ..flow import Flow
+    for fname in ["custom_ops::run_instantiation_pass"] + [c.id for c in facts.closures_of("custom_ops::run_instantiation_pass")]:
+        b = facts.body(fname)
+        if not rep.anchor("C08.G", fname, b):
+            continue
+        fl = Flow(facts, b)
+        gets = [bb for bb, t in b.calls() if callee_name(t) == "custom_ops::Instantiation::get_name"]
+        n = 0
+        for bb, t in b.calls():
+            if b.is_cleanup(bb):
+                continue
+            cn = callee_name(t) or ""
+            for i, a in enumerate(t["args"]):
+                if a[0] == "k":
+                    continue
+                ors = fl.origins(a, (bb, None))
+                if any(o[0] == "call" and o[1] in gets for o in ors):
+                    n += 1
+                    ok = cn in NAMING_SINKS or cn.startswith(("std::", "core::", "alloc::", "<std::", "<alloc::")) and \
+                        cn.endswith(("::deref", "::as_str", "::clone", "::borrow", "::as_ref", "::to_owned", "::to_string"))
+                    rep.ob("C08.G", "%s|name-use:%s" % (fname.split("::")[-1], cn.split("::")[-1]), ok,
+                           "the reported name flows into %s%s" % (cn, "" if ok else
+                           ": names are not identities - an instantiation must be found by (op, argument types), not by its name"),
+                           b.loc(bb))
+        if fname == "custom_ops::run_instantiation_pass":
+            rep.floor("C08.G", "uses of Instantiation::get_name in run_instantiation_pass", n, 1)
+            # the cache of glued instantiations is a HashMap keyed by Instantiation
+            keyed = [l for l in range(len(b.locals)) if b.local_ty(l).startswith("std::collections::HashMap<custom_ops::Instantiation")]
+            rep.ob("C08.G", "glued-cache-key", bool(keyed),
+                   "glued_instantiations_cache is a HashMap keyed by Instantiation (%d local(s))" % len(keyed), b.loc())
+
+
+_run_n = run
+
+
+def run(facts, rep, tier):
+    _run_n(facts, rep, tier)
+    glue_by_identity(facts, rep)
